@@ -352,3 +352,11 @@ Definition check_rot (c : list (list (list (Z * Z))) * list (list (list (list (Z
                             && rows_eqb (rows 1 (oscale 1 (cq (qz 2)) (proj1 (r, b)))) (map (map zc) l))
                 [false; true] pb)
        [RX; RY; RZ] projs.
+
+(* one entry point for the three kinds of correspondence cases *)
+Inductive AnyCase :=
+| CEnum (c : Case)
+| CForm (c : Z * nat * list (list Z) * list (list Z))
+| CRot (c : list (list (list (Z * Z))) * list (list (list (list (Z * Z))))).
+Definition check_any (c : AnyCase) : bool :=
+  match c with CEnum c => check_case c | CForm c => check_form c | CRot c => check_rot c end.
